@@ -69,13 +69,14 @@ def parseOK (b : Base) : ParseOut := mk b .ok
 /-- `server.ParseUnknown` -/
 def parseUnknown (b : Base) : ParseOut := mk b .unknown
 
-/-- `server.ParseConfig` with `ParseConfigGet`; the sub-command is compared case-sensitively (D13) -/
+/-- `server.ParseConfig` with `ParseConfigGet`; the sub-command is lowered (`strings.ToLower`) before it
+is compared and stored; a sub-command with a byte ≥ 0x80 lowers to something that is not `get` -/
 def parseConfig (b : Base) : ParseOut :=
   match b.args with
   | [] => .error .invalidArgNum
   | sub :: args =>
-    if sub == asciiBytes "get" then
-      (if args.length < 1 then .error .invalidArgNum else mk b (.config sub args))
+    if sub.all (· < 128) && sub.map lowerAscii == asciiBytes "get" then
+      (if args.length < 1 then .error .invalidArgNum else mk b (.config (asciiBytes "get") args))
     else .error .unknownSubcmd
 
 /-- `server.ParseDBSize` -/
